@@ -22,6 +22,9 @@ import Mamba.Lemmas.DistanceBiconLow2
 import Mamba.Lemmas.DistanceBiconArt2
 import Mamba.Lemmas.DistanceBiconStatic3
 import Mamba.Lemmas.DistanceBiconStatic8
+import Mamba.Lemmas.DistancePatonSound
+import Mamba.Lemmas.DistancePatonCount2
+import Mamba.Lemmas.DistancePatonIndep2
 /-!
 # C10 — property theorems
 
@@ -572,11 +575,14 @@ below 2 (the parents of the vertices waiting on the stack `X` are never deeper t
 Paton's remark that a back edge leads to a vertex at distance one from the tree path to `v`), following `T` from a
 tree vertex never meets `-1`, all indices are in range, and the `for len(X) > 0` loop terminates within `n + 1`
 iterations — and Gibbs' steps 2–4 return a value on the fundamental cycles it produced.
+Proved separately below: `paton_cycles_sound` (every fundamental cycle is a simple cycle), `paton_cycles_count`
+(`m - n + 1` of them on a connected graph), `paton_cycles_independent` (each has a private non-tree edge).
 NOT proved: (a) totality of the last step `numberFound[len(V)]++`, which needs `len(V) ≤ n` for every set `V` kept
-by Gibbs' algorithm, i.e. that every such set is a single cycle; (b) correctness: Paton's cycles form a fundamental
-basis of the cycle space of the block and Gibbs' steps keep exactly the elements of the cycle space that are single
-cycles, so that the counts by length are `numCycles g l` (`numCycles_spec`). Both are validated per input (`F=ok`,
-for `m - n ≤ 12`; Go vs reference for `m - n ≤ 14`). -/
+by Gibbs' algorithm, i.e. that every such set is a single cycle (missing lemmas: every cycle of the block is the XOR
+of the fundamental cycles of its non-tree edges; `Q` = all non-empty XOR combinations; an even edge set through the
+new non-tree edge that contains no other element of `R` is a single cycle); (b) correctness: Gibbs' steps keep exactly
+the elements of the cycle space that are single cycles, so that the counts by length are `numCycles g l`
+(`numCycles_spec`). Both are validated per input (`F=ok`, for `m - n ≤ 12`; Go vs reference for `m - n ≤ 14`). -/
 theorem numberOfCycles_phases_total_partial (g : G) (hsym : ∀ u v, g.adj u v = g.adj v u) (bicom : List Nat)
     (hne : 0 < (g.induced bicom).n) :
     ∃ st, Model.patonLoop (g.induced bicom) ((g.induced bicom).n + 1) (patonInit (g.induced bicom).n) = .ok st ∧
@@ -585,6 +591,47 @@ theorem numberOfCycles_phases_total_partial (g : G) (hsym : ∀ u v, g.adj u v =
   exact ⟨st, hst, fun f0 fs _ => gibbsLoop_total fs _⟩
 
 example : 0 < ((ofEdges 3 [(0, 1), (1, 2), (0, 2)]).induced [0, 1, 2]).n := by decide  -- non-vacuity
+
+/-- `NumberOfCycles`, Paton's phase, soundness: on every simple graph `a` (in the model: a block
+`g.induced bicom`), every fundamental cycle appended to `fundCycles` is the sorted list of the edge codes
+(`edgeCode`: `max(max-1)/2 + min`) of a simple cycle of `a` (`IsCycCode`: there is a vertex sequence `c` with
+`IsCycleSeq a c` — at least three distinct vertices, consecutive ones and last/first adjacent — whose edge codes,
+sorted, are the list). The cycle is `u, v, T[v], T[T[v]], …, T[u]`: the invariant `PS` keeps a ghost ancestor
+relation (`AncD`: `T[u]` is the ancestor of the examined vertex `v` exactly `depth[v] - depth[T[u]]` tree edges above
+it, for every `u` waiting on the stack `X` — the stack discipline), depths grow by one along tree edges, tree edges
+are edges of `a`, and parents are never on the stack; so `length - 2` steps of `previous = T[previous]` from `v` end
+exactly in `T[u]` and the vertices passed are distinct and different from `u`. -/
+theorem paton_cycles_sound (a : G) (hsym : ∀ u v, a.adj u v = a.adj v u) (hirr : ∀ v, a.adj v v = false)
+    (hn : 0 < a.n) (fuel : Nat) (st : Model.PatonSt)
+    (hres : Model.patonLoop a fuel (patonInit a.n) = .ok st) :
+    ∀ f ∈ st.fund, IsCycCode a f :=
+  paton_fund_sound a hsym hirr hn fuel st hres
+
+/-- `NumberOfCycles`, Paton's phase, count: on a connected simple graph `a` with `m` edges (a block is connected)
+the phase produces exactly `m - n + 1` fundamental cycles (`|fundCycles| + n = m + 1`). Invariant `PC`: every pair in
+the list of removed edges is an edge of `a` between two tree vertices, no edge is removed twice, and
+`|removed| + #{x | T[x] = -1} + 1 = n + |fundCycles|` (a removed edge either adds a tree vertex or a fundamental
+cycle); at the end every edge at an examined vertex is removed, the tree is closed under adjacency, hence spans `a`,
+and the removed edges are exactly the edges of `a`. -/
+theorem paton_cycles_count (a : G) (hsym : ∀ u v, a.adj u v = a.adj v u) (hirr : ∀ v, a.adj v v = false)
+    (hn : 0 < a.n) (hconn : ∀ x, x < a.n → Reach a 0 x) (fuel : Nat) (st : Model.PatonSt)
+    (hres : Model.patonLoop a fuel (patonInit a.n) = .ok st) :
+    st.fund.length + a.n = a.m + 1 :=
+  paton_fund_count a hsym hirr hn hconn fuel st hres
+
+/-- `NumberOfCycles`, Paton's phase, independence: every fundamental cycle contains an edge code (that of its
+non-tree edge `u – v`) that no other fundamental cycle contains — `es[j] ∈ fundCycles[i] ↔ i = j` — hence the
+fundamental cycles are linearly independent over GF(2). Invariant `PI`: every fundamental cycle consists of the code
+of its non-tree edge and of codes of tree edges `x – T[x]`; non-tree and tree edges are different entries of the list
+of removed edges, no edge is removed twice, and `edgeCode` is injective on unordered pairs (`edgeCode_inj`).
+Together with `paton_cycles_count` (`m - n + 1` of them) this is the fundamental-basis half of Paton's theorem; the
+spanning half (every cycle of the block is the XOR of the fundamental cycles of its non-tree edges) is NOT proved. -/
+theorem paton_cycles_independent (a : G) (hsym : ∀ u v, a.adj u v = a.adj v u) (hirr : ∀ v, a.adj v v = false)
+    (hn : 0 < a.n) (fuel : Nat) (st : Model.PatonSt)
+    (hres : Model.patonLoop a fuel (patonInit a.n) = .ok st) :
+    ∃ es : List Nat, es.length = st.fund.length ∧
+      ∀ i j (hi : i < st.fund.length) (hj : j < es.length), es[j] ∈ st.fund[i] ↔ i = j :=
+  paton_fund_private a hsym hirr hn fuel st hres
 
 /-! ## Invariance under relabelling
 
